@@ -152,7 +152,9 @@ Proof. vm_compute. repeat split; try reflexivity; discriminate. Qed.
 From PM Require Import Proofs.DeviceInv Proofs.DeviceInvG Proofs.DeviceSlots Proofs.DaemonSlots Proofs.DaemonPending.
 From PM Require Properties.C04 Properties.C07.
 
-(* from start-up, after ANY list of passes, in the reached state:
+(* from start-up, after ANY list of passes, the run returns Ok (never Exit / Abort / MemErr, and never Hang: `boot` carries
+   the Hang-free device invariant DInvH, i.e. additionally the static hypothesis nest_ok - blocks nested at most DMAX = 7 deep;
+   no shipped script nests deeper than 1, SpecBridge.shipped_max_depth - C04_shipped_boot), and in the reached state:
      - an action queued on any device that carries a result list also carries a completion callback (it is counted by
        its client's pending counter), and the list exists;
      - if the client with that action's id is still connected, the list is the one of THAT client's command in progress
@@ -170,13 +172,12 @@ Theorem C11_result_lists : forall expand_str ranged_sorted ranged_plain sorted r
            (s < length (dm_store st'))%nat /\ forall x, In x (dm_clients st') -> cid x = c -> cmd_slot x = Some s) /\
         (forall x s, In x (dm_clients st') -> cmd_slot x = Some s -> (s < length (dm_store st'))%nat) /\
         (forall x y s, In x (dm_clients st') -> In y (dm_clients st') -> cmd_slot x = Some s -> cmd_slot y = Some s -> cid x = cid y)
-    | Hang _ => True
     | _ => False
     end.
 Proof.
   intros es rs0 rp so rm cp sc st now plans rs Hb Hn.
   destruct (daemon_result_lists es rs0 rp so rm cp sc st now plans rs Hb Hn) as (st1 & o & E & H). exists st1, o. split; [exact E|].
-  destruct (drun es rs0 rp so rm cp sc st1 rs []) as [[st' outs]| | | |]; try contradiction; [|exact Logic.I].
+  destruct (drun es rs0 rp so rm cp sc st1 rs []) as [[st' outs]| | | |]; try contradiction.
   destruct H as [A B C D]. split; [exact A|]. split; [exact B|]. split; [exact C|exact D].
 Qed.
 Print Assumptions C11_result_lists.
